@@ -76,6 +76,30 @@ for node in nodes.bfs(exprs, params.get('max_depth', None)):
         except Exception:  # noqa
             pass
 spec_keys = [(c, nm, key_of(x)) for c, nm, x in spec]
+# ... and once more mutator by mutator, each starting from freshly collected information (as in the earlier passes of a second
+# run, where a mutator works alone): what a mutator proposes for a node must not depend on which mutator asked for a sort first
+seen_keys = set(map(repr, spec_keys))
+for m in last + [m_ for m_ in enabled_all if type(m_).__name__ not in last_names]:
+    smtlib.collect_information(exprs)
+    count = 0
+    for node in nodes.bfs(exprs, params.get('max_depth', None)):
+        count += 1
+        try:
+            if hasattr(m, 'filter') and not m.filter(node):
+                continue
+            got = []
+            if hasattr(m, 'mutations'):
+                got += [(count, str(m), x) for x in m.mutations(node)]
+            if hasattr(m, 'global_mutations'):
+                got += [(count, f'(global) {m}', x) for x in m.global_mutations(node, exprs)]
+        except Exception:  # noqa
+            continue
+        for c_, nm_, x_ in got:
+            k_ = repr((c_, nm_, key_of(x_)))
+            if k_ not in seen_keys:
+                seen_keys.add(k_)
+                spec.append((c_, nm_ + ' [working alone]', x_))
+smtlib.collect_information(exprs)
 missing = [k for k in spec_keys if k not in produced]
 extra = [k for k in produced if k not in spec_keys]
 n = 0
